@@ -577,6 +577,26 @@ pub fn run_silent(hist: &History) -> (String, u64) {
     (snap, calls)
 }
 
+/// runs a history without keeping the trace and returns the answer of its LAST operation
+pub fn run_answers(hist: &History) -> (String, u64) {
+    let mut buf: Vec<u8> = Vec::new();
+    let saved = std::env::var("ITV_SNAP_EVERY").ok();
+    std::env::set_var("ITV_SNAP_EVERY", "1000000000");
+    run_history(&mut buf, 0, hist);
+    match saved {
+        Some(v) => std::env::set_var("ITV_SNAP_EVERY", v),
+        None => std::env::remove_var("ITV_SNAP_EVERY"),
+    }
+    let calls = CALLS.with(|c| c.get());
+    let text = String::from_utf8_lossy(&buf);
+    let last = text.lines().last().unwrap_or("");
+    let ans = match (last.find(" => "), last.find(" @")) {
+        (Some(a), Some(b)) if b > a => last[a + 4..b].to_string(),
+        _ => String::new(),
+    };
+    (ans, calls)
+}
+
 pub fn run_history<W: Write>(out: &mut W, index: usize, hist: &History) {
     let mut head = format!("H {} {}", hist.coll.name(), index);
     for p in &hist.params {
